@@ -127,12 +127,34 @@ def sig_c26_uninit_ingredient(job, ops):
 
 SIGNATURES["C26"] = [("function-ingredient-not-initialised-after-restore", sig_c26_uninit_ingredient)]
 
+def sig_c22_interrupted_stale_output_removal(job, ops):
+    """F8: a panic in the event callback interrupts `diff_outputs` after at least one stale tracked struct of
+    the executing query has already been deleted (DidDiscard of a `T@..` key earlier in the same operation,
+    then the injected panic at an event callback). The query's old memo stays in place and still lists the
+    deleted struct as an output, so every later execution of the query tries to delete (or re-create) it again
+    and panics inside salsa."""
+    if not job.get("inject"):
+        return False
+    for op in ops:
+        deleted = False
+        for e in op:
+            if e.get("e") == "dd" and str(e.get("k", "")).startswith("T@"):
+                deleted = True
+            if e.get("e") == "inject" and e.get("at") == "event" and deleted:
+                return True
+    return False
+
+
+SIGNATURES["C22"] = [("event-panic-interrupts-stale-output-removal", sig_c22_interrupted_stale_output_removal)]
+
 # C18 requires the single-threaded results of C12/C13 under concurrency: the same two findings show there
 SIGNATURES["C18"] = SIGNATURES["C13"]
 
 
 # signatures that identify the violation itself (its detail must carry the marker), not the whole job
-DETAIL_MARKER = {"function-ingredient-not-initialised-after-restore": "cannot be accessed before calling `init`"}
+DETAIL_MARKER = {"function-ingredient-not-initialised-after-restore": "cannot be accessed before calling `init`",
+                 "event-panic-interrupts-stale-output-removal": ("cannot delete write-locked id", "cannot delete read-locked id",
+                                                                 "two concurrent writers to", "write lock taken")}
 
 
 def classify(pid, job, job_trace_lines, detail=""):
@@ -140,8 +162,11 @@ def classify(pid, job, job_trace_lines, detail=""):
     ops = op_window(job_trace_lines)
     for name, fn in SIGNATURES.get(pid, []):
         try:
-            if name in DETAIL_MARKER and DETAIL_MARKER[name] not in detail:
-                continue
+            if name in DETAIL_MARKER:
+                marks = DETAIL_MARKER[name]
+                marks = (marks,) if isinstance(marks, str) else marks
+                if not any(m in detail for m in marks):
+                    continue
             if fn(job, ops):
                 return name
         except Exception:
